@@ -395,3 +395,18 @@ func expandCond(v ssa.Value, truth bool, out *[]Fact, depth int) {
 	}
 	*out = append(*out, Fact{Cond: v, True: truth})
 }
+
+// Unwrap maps a synthetic wrapper of a declared function or method — the thunk
+// of a method expression (*T).m, the $bound closure of a method value — to the
+// declared function; anything else is returned unchanged.
+func Unwrap(fn *ssa.Function) *ssa.Function {
+	if fn == nil || fn.Synthetic == "" || fn.Prog == nil {
+		return fn
+	}
+	if obj, ok := fn.Object().(*types.Func); ok && obj != nil {
+		if f := fn.Prog.FuncValue(obj); f != nil && f != fn {
+			return f
+		}
+	}
+	return fn
+}
